@@ -52,12 +52,14 @@ package index
 //@ func readVarLenString
 //@   props C12 C03
 //@   nopanic
+//@   pure
 //@   requires r != nil
 //@   alloc_budget 65536
 
 //@ func Snapshot.readSegmentSnapshot
 //@   props C12 C03
 //@   nopanic
+//@   pure
 //@   requires br != nil
 //@   alloc_budget 65536
 //@   ensures err == nil ==> ss != nil
@@ -68,14 +70,81 @@ package index
 //@   nopanic
 //@   requires br != nil
 //@   alloc_budget 65536
+//@   modifies i.segment, elems(i.segment)
+//@   loop 1
+//@     invariant base(i.segment) == old(base(i.segment)) || fresh(base(i.segment))
 
 //@ func Snapshot.ReadFrom
 //@   props C12 C03
 //@   nopanic
 //@   alloc_budget 65536
+//@   modifies i.segment, elems(i.segment)
+
+//@ func Directory.Load(recv, kind, id) (data, closer, err)
+//@   interface
+//@   props C12 C03 C11
+//@   modifies openHandles
+//@   ensures err != nil ==> data == nil && closer == nil && openHandles == old(openHandles)
+//@   ensures err == nil ==> data != nil && openHandles == old(openHandles) + ite(closer != nil, 1, 0)
+
+//@ func Directory.List(recv, kind) (ids, err)
+//@   interface
+//@   props C12 C03 C11
+//@   pure
+//@   ensures err != nil ==> isnil(ids)
 
 // bytes handed out by segment.Data.Read alias the mapped file: they must not be touched after
 // the closer returned by Directory.Load has been closed (unmap).
+// CRC gate: a snapshot is returned only if the CRC of the bytes consumed equals the trailer
+// (the last bytes.Equal answered true); every error path before the segments are opened
+// releases the handle it obtained.
 //@ func Writer.loadSnapshot
 //@   props C12 C03
 //@   borrow Data.Read until Closer.Close
+//@   modifies openHandles, bytesEqTrue
+//@   assume_frame
+//@   ensures [crc-gate] (result0 != nil && old(s.config.ValidateSnapshotCRC)) ==> bytesEqTrue > old(bytesEqTrue)
+//@   ensures [nil-or-error] (result0 == nil) <==> (result1 != nil)
+//@   ensures [epoch] result0 != nil ==> result0.epoch == epoch
+//@   effect (result1 == nil) <==> loadable(epoch)
+
+// loadable(e): the snapshot file of epoch e and all its segments load (an oracle about the directory
+// content, fixed while a writer or reader is being opened).
+//@ spec fn loadable(e uint64) bool
+//@ spec fn rec firstLoadable(a map[int]uint64, o int, lo int, hi int) int =
+//@    ite(lo >= hi, -1, ite(loadable(a[o + lo]), lo, firstLoadable(a, o, lo + 1, hi)))
+
+// Fallback (C03/C12): the snapshots are listed newest first; the writer walks them oldest to
+// newest and ends up on the NEWEST LOADABLE one, skipping every one that fails to load; it
+// reports an error only when snapshots exist and none loads.
+//@ func Writer.replaceRoot
+//@   props C03 C12
+//@   opaque
+//@ func KeepNLatestDeletionPolicy.Commit
+//@   props C03 C12
+//@   opaque
+
+//@ func Writer.loadSnapshots
+//@   props C03 C12
+//@   loop 1
+//@     invariant -1 <= i && i < len(snapshotEpochs)
+//@     invariant snapshotsFound <==> (i < len(snapshotEpochs) - 1)
+//@     invariant snapshotLoaded <==> (firstLoadable(elems(snapshotEpochs), off(snapshotEpochs), i + 1, len(snapshotEpochs)) >= 0)
+//@     invariant snapshotLoaded ==> lastPersistedEpoch == snapshotEpochs[firstLoadable(elems(snapshotEpochs), off(snapshotEpochs), i + 1, len(snapshotEpochs))]
+//@     invariant snapshotLoaded ==> nextSnapshotEpoch == uint64(lastPersistedEpoch + 1)
+//@     invariant !snapshotLoaded ==> nextSnapshotEpoch == 1
+//@   exit [error-iff-none-loadable] (err != nil) <==> (len(snapshotEpochs) > 0 && firstLoadable(elems(snapshotEpochs), off(snapshotEpochs), 0, len(snapshotEpochs)) < 0) || isnil(snapshotEpochs) && err != nil
+//@   exit [newest-loadable-wins] (err == nil && firstLoadable(elems(snapshotEpochs), off(snapshotEpochs), 0, len(snapshotEpochs)) >= 0) ==>
+//@         (lastPersistedEpoch == snapshotEpochs[firstLoadable(elems(snapshotEpochs), off(snapshotEpochs), 0, len(snapshotEpochs))] && nextSnapshotEpoch == uint64(lastPersistedEpoch + 1))
+
+// OpenReader: the snapshots are listed newest first; the reader takes the FIRST one that loads.
+//@ func OpenReader
+//@   props C03 C12
+//@   loop 1
+//@     invariant rangeindex < len(snapshotEpochs)
+//@     invariant indexSnapshot == nil
+//@     invariant firstLoadable(elems(snapshotEpochs), off(snapshotEpochs), 0, len(snapshotEpochs)) ==
+//@               firstLoadable(elems(snapshotEpochs), off(snapshotEpochs), rangeindex + 1, len(snapshotEpochs))
+//@   exit [newest-loadable-wins] result1 == nil ==> (result0 != nil && firstLoadable(elems(snapshotEpochs), off(snapshotEpochs), 0, len(snapshotEpochs)) >= 0 &&
+//@         result0.epoch == snapshotEpochs[firstLoadable(elems(snapshotEpochs), off(snapshotEpochs), 0, len(snapshotEpochs))])
+//@   exit [error-only-if-none-loadable] result1 != nil ==> firstLoadable(elems(snapshotEpochs), off(snapshotEpochs), 0, len(snapshotEpochs)) < 0 || isnil(snapshotEpochs)
